@@ -226,6 +226,10 @@ def corrupt_object(fmt, obj, node_index, field, cls):
         node.checksums["/abs/file"] = ["sha256", "0" * 64]
     elif cls == "intkey" and field == "paths":
         node.checksums[5] = ["sha256", "0" * 64]
+    elif cls.startswith("unknown_as_"):
+        # the unsupported format sits on an image of a type for which the library lists no formats of its own
+        node.type = cls[len("unknown_as_"):]
+        node.format = "bogus-value"
     elif cls == "onlyone":
         node.totaldiscs = None
     elif field.startswith("path_"):
@@ -364,6 +368,8 @@ def corrupt_document(fmt, text, obj, case):
             n["arches"] = sorted(set(n["arches"]) | (set(top["arches"]) - set(par["arches"])))
         elif cls == "nonempty":
             n["additional_variants"] = ["Client"]
+        elif cls.startswith("unknown_as_"):
+            n["type"], n["format"] = cls[len("unknown_as_"):], "bogus-value"
         elif cls == "doc:collide":
             v, a, path = label.split("|")
             img = [i for i in obj.images[v][a] if i.path == path][0]
